@@ -108,7 +108,17 @@ class C17(Prop):
             recs.append({'total': rng.choice([n, n + 7, 10 ** 9 + n]), 'converted': conv,
                          'lbe': rng.choice([None, rng.uniform(-50, 5)]), 'dkl': rng.choice([None, rng.uniform(0, 12)]),
                          'samples': samples, 'prob_2d': rng.random() < 0.5})
-        return {'kind': 'binary', 'recs': recs}
+        multi = len(recs) >= 2 and rng.random() < 0.5
+        if multi:
+            # results of a joint inversion: one record per event written from ONE dictionary with '_<event>' suffixed tensors and converted
+            # parameters; sample count, probabilities, evidence and counts are shared by the events
+            n0 = len(recs[0]['samples'])
+            for r in recs[1:]:
+                r.update(total=recs[0]['total'], converted=recs[0]['converted'], lbe=recs[0]['lbe'], dkl=recs[0]['dkl'], prob_2d=recs[0]['prob_2d'])
+                r['samples'] = [{'p': s0['p'], 'lnp': s0['lnp'], 'mt': [rng.gauss(0, 1) for _ in range(6)],
+                                 'conv': [rng.uniform(-3, 7) for _ in range(13)] if recs[0]['converted'] else []} for s0 in recs[0]['samples']]
+                assert len(r['samples']) == n0
+        return {'kind': 'binary', 'recs': recs, 'multi': multi}
 
     def gen(self, rng, tier):
         n = 150 if tier == 'quick' else 2500
@@ -238,7 +248,18 @@ class C17(Prop):
             evs = io.parse_hyp(fn)
             return {'events': self._canon_events(evs), 'nlines': [len(e.get('hyp_file', [])) for e in evs]}
         # binary
-        blobs = [io._convert_mt_space_to_struct(self._dict_of(r))[0] for r in case['recs']]
+        if case.get('multi'):
+            joint = self._dict_of(case['recs'][0])
+            for key in ['moment_tensor_space', 'g', 'd', 'k', 'h', 's', 'u', 'v', 'S1', 'D1', 'R1', 'S2', 'D2', 'R2']:
+                joint.pop(key, None)
+            for i, r in enumerate(case['recs']):
+                one = self._dict_of(r)
+                for key in ['moment_tensor_space', 'g', 'd', 'k', 'h', 's', 'u', 'v', 'S1', 'D1', 'R1', 'S2', 'D2', 'R2']:
+                    if key in one:
+                        joint['%s_%d' % (key, i + 1)] = one[key]
+            blobs = [io._convert_mt_space_to_struct(joint, i + 1)[0] for i in range(len(case['recs']))]
+        else:
+            blobs = [io._convert_mt_space_to_struct(self._dict_of(r))[0] for r in case['recs']]
         fn = os.path.join(self.tmp, 'f.mt')
         with open(fn, 'wb') as fh:
             for b in blobs:
